@@ -65,8 +65,9 @@ def run(ctx):
         if q:
             mcf = [ex.submit(mc_one, ctx, "b2", dict(BASE, Authors="{0, 2}"), "Pre2", "AvAc1", 3)]
         else:
-            mcf = [ex.submit(mc_one, ctx, "b2-wide", dict(BASE, Jumps="{1, 3, 4}", Tickets="{0, 2}", MaxG="2", MaxA="2"), "Pre3", "AvAc2", 6, True),
-                   ex.submit(mc_one, ctx, "b3", dict(BASE, MaxBlocks="3", Jumps="{1, 4}", Tickets="{1}"), "Pre2", "AvAc1", 6)]
+            mcf = [ex.submit(mc_one, ctx, "b2-assurers", dict(BASE, MaxA="2"), "Pre3", "AvAc2", 5, True),
+                   ex.submit(mc_one, ctx, "b2-guarantees", dict(BASE, Tickets="{0, 2}", MaxG="2"), "Pre2", "AvAc1", 5),
+                   ex.submit(mc_one, ctx, "b3-v2", dict(BASE, V="2", Authors="{0, 1}", MaxBlocks="3", Tickets="{1}"), "Pre2", "AvAc1", 4)]
         casep = gen_f.result()
         binp = build_f.result()
         tp = ctx.tmp + "/trace.ndjson"
